@@ -149,7 +149,7 @@ def run_reader(cid, source, mode="yield", limit=None, close=True, reader=None):
         else:
             final_events.append(["row", event[1]])
     observation = {"events": final_events, "raised": raised, "accepted": reader.accepted_rows_count, "rejected": reader.rejected_rows_count}
-    observation["snapshot"] = (reader.accepted_rows_count, reader.rejected_rows_count, reader._location.line if reader._location else None, check_snapshot(cid))
+    observation["snapshot"] = (reader.accepted_rows_count, reader.rejected_rows_count, reader.location.line if reader.location is not None else None, check_snapshot(cid))
     if close:
         try:
             reader.close()
